@@ -223,8 +223,13 @@ pub fn run_deadline(sim: &Sim, _idx: u64) {
     // a second call on the same channel (and connection) with its own, independent deadline: the
     // deadline belongs to the call, nothing of it may be carried over
     let second: Option<DeadlineCall> = if sim.chance(1, 2) { Some(draw_deadline_call(sim, base_ms, server, endpoint)) } else { None };
+    let second_on_new_connection = second.is_some() && sim.chance(1, 2);
+    let set_twice = sim.chance(1, 4);
+    if second_on_new_connection {
+        sim.probe("second-call-on-a-second-connection");
+    }
     sim.nontrivial();
-    sim.sample(|| format!("server={server:?} endpoint={endpoint:?}; call 1 {first:?}; call 2 {second:?}"));
+    sim.sample(|| format!("server={server:?} endpoint={endpoint:?}; call 1 {first:?}; call 2 {second:?}; second connection={second_on_new_connection} set_timeout twice={set_twice}"));
     sim.ev(|| format!("config: server={server:?} endpoint={endpoint:?}; call 1 {first:?}; call 2 {second:?}"));
     if first.malformed.is_some() && first.d.is_some() {
         sim.probe("malformed-header-with-configured-timeout");
@@ -241,16 +246,31 @@ pub fn run_deadline(sim: &Sim, _idx: u64) {
             handler.add_script(i as u64 + 1, Script { msgs: vec![b"pong".to_vec()], latency_us: c.latency.map(|l| l.as_micros() as u64).unwrap_or(u64::MAX), ..Default::default() });
         }
         let _srv = spawn_server::<std::future::Pending<()>>(&handler, &CompCfg { server_accept: vec![], server_send: vec![], client_send: None, client_accept: vec![] }, &ServerOpts { timeout: server, ..Default::default() }, rx, None);
-        let ch = match connect(&ClientOpts { timeout: endpoint, lazy: sim.chance(1, 2), ..Default::default() }, connector).await {
+        let ch = match connect(&ClientOpts { timeout: endpoint, lazy: sim.chance(1, 2), ..Default::default() }, connector.clone()).await {
             Ok(c) => c,
             Err(e) => return Err(format!("connect failed: {e}")),
         };
         let mut out = vec![];
         for (i, c) in calls.iter().enumerate() {
-            let mut client = crate::rawsvc::raw_client::RawClient::new(ch.clone());
+            // the second call may travel on a second connection to the same server (a second
+            // channel): the server's configured timeout belongs to the server, not to its first connection
+            let ch_i = if i == 1 && second_on_new_connection {
+                match connect(&ClientOpts { timeout: endpoint, lazy: false, ..Default::default() }, connector.clone()).await {
+                    Ok(c) => c,
+                    Err(e) => return Err(format!("second connect failed: {e}")),
+                }
+            } else {
+                ch.clone()
+            };
+            let mut client = crate::rawsvc::raw_client::RawClient::new(ch_i);
             let mut req = tonic::Request::new(RawMsg(Bytes::from_static(b"ping")));
             req.metadata_mut().insert("sim-call", (i + 1).to_string().parse().unwrap());
             if let Some(t) = c.caller {
+                if set_twice {
+                    // a default deadline first, then the caller's own: the later call replaces the earlier
+                    let max_repr = Duration::from_secs(3600 * 99_999_999);
+                    req.set_timeout(t.checked_mul(50).and_then(|d| d.checked_add(Duration::from_secs(5))).filter(|d| *d <= max_repr).unwrap_or(max_repr));
+                }
                 req.set_timeout(t);
             }
             if let Some(m) = c.malformed {
